@@ -4,6 +4,7 @@ go 1.26.8
 
 require (
 	github.com/enbility/ship-go v0.0.0
+	github.com/gorilla/websocket v1.5.3
 	pgregory.net/rapid v1.3.0
 )
 
